@@ -35,7 +35,8 @@ REGISTRATION = {
             "only). Registry manifests are assumed truthful about SIZES (PullOk; PullModel never checks them). Outside the model: the "
             "pull protocol itself (C03), adapters/projectors, safetensors, quantize, directories "
             "inside blobs/, case-insensitive file systems. Tie 1 (decide over facts regenerated from the source): the "
-            "digest pattern of GetBlobsPath and the startup sequence of Serve, which the driver transcribes.",
+            "behaviour of GetBlobsPath on every class of digest string (the real function executed by the driver, compared "
+            "with the model's reading of digest strings) and the startup sequence of Serve, which the driver transcribes.",
 }
 
 MODULES = ["OllamaVerif.Properties.C04", "OllamaVerif.Proofs.Store", "OllamaVerif.Proofs.StoreShow", "OllamaVerif.Model.Store",
@@ -115,7 +116,8 @@ THEOREMS = [
     "OllamaVerif.C04.N1_repaired_witness",
     "OllamaVerif.C04.wEnv_inj",
     # Tie 1: facts regenerated from the source of the tree under test
-    "OllamaVerif.Tie.C04.blob_pattern",
+    "OllamaVerif.Tie.C04.blobs_path_inputs",
+    "OllamaVerif.Tie.C04.blobs_path_table",
     "OllamaVerif.Tie.C04.serve_startup_sequence",
 ]
 # theorems whose hypotheses name the PINNED (upstream, unrepaired) variant of a finding that is fixed in /repo: kept
@@ -214,6 +216,22 @@ def regenerate(ctx):
     # evidence, not enforced: a refactor that keeps the behaviour must not fail the check (L1/L2 judge behaviour)
     for k in ("serveCalls",):
         body += f"def {k} : List String := {_lean_list(facts[k])}\n"
+    # what GetBlobsPath DOES: the real function executed on one digest string of every class (behaviour, not syntax)
+    table = []
+    rc, out, outdir = ctx.go_test("./server/", OVERLAY, "^TestVerifC04Facts$", timeout=900)
+    try:
+        for line in open(os.path.join(outdir, "facts.txt")):
+            f = line.rstrip("\n").split("\t")
+            if len(f) == 3 and f[0] == "blobspath":
+                table.append((f[1], f[2]))
+    except OSError:
+        pass
+    body += ("/-- `GetBlobsPath` EXECUTED by this run's driver on one digest string of every class: the file name it "
+             "answers, or `none` for an error -/\n"
+             "def blobsPathTable : List (String × Option String) := ["
+             + ", ".join("(%s, %s)" % (_lean_list([i])[1:-1], "none" if o == "ERR" else "some " + _lean_list([o])[1:-1])
+                         for i, o in table) + "]\n")
+    facts["blobsPathTable"] = [list(x) for x in table]
     body += "end OllamaVerif.Generated.C04\n"
     core.write_generated("OllamaVerif/Generated/C04_Source.lean", body)
     ctx.coverage["tie1_source_facts"] = dict(facts, blobPattern=pattern)
